@@ -723,7 +723,9 @@ def formula_grammar(table):
 
     # Convert "(composite) count" to a pair
     opengrp = space + Literal('(').suppress() + space
-    closegrp = space + Literal(')').suppress() + space
+    # Note: no trailing space, otherwise the count of a following group
+    # ("(HO) 2H") is taken as the repeat count of this one.
+    closegrp = space + Literal(')').suppress()
     explicit_group = opengrp + composite + closegrp + count
     def convert_explicit(string, location, tokens):
         """convert (fragment)count"""
